@@ -98,6 +98,10 @@ pixman_edge_step (pixman_edge_t *e,
 
     e->x += n * e->stepx;
 
+    /* An edge with a whole-number slope accumulates no error */
+    if (e->dx == 0)
+	return;
+
     ne = e->e + n * (pixman_fixed_48_16_t) e->dx;
 
     if (n >= 0)
@@ -108,6 +112,10 @@ pixman_edge_step (pixman_edge_t *e,
 	    e->e = ne - nx * (pixman_fixed_48_16_t) e->dy;
 	    e->x += nx * e->signdx;
 	}
+	else
+	{
+	    e->e = ne;
+	}
     }
     else
     {
@@ -116,6 +124,10 @@ pixman_edge_step (pixman_edge_t *e,
 	    int nx = (-ne) / e->dy;
 	    e->e = ne + nx * (pixman_fixed_48_16_t) e->dy;
 	    e->x -= nx * e->signdx;
+	}
+	else
+	{
+	    e->e = ne;
 	}
     }
 }
@@ -176,7 +188,19 @@ pixman_edge_init (pixman_edge_t *e,
 	    e->signdx = 1;
 	    e->stepx = dx / dy;
 	    e->dx = dx % dy;
-	    e->e = -dy;
+	    if (e->dx)
+	    {
+		/* Fractional slope: every later state of the walk is
+		 * x = ceil (X) - 1, -dy < e <= 0.  Start in that form too,
+		 * so that the walk does not depend on the starting row.
+		 */
+		e->x -= 1;
+		e->e = 0;
+	    }
+	    else
+	    {
+		e->e = -dy;
+	    }
 	}
 	else
 	{
